@@ -1,5 +1,7 @@
 //! Counting global allocator: any single request above `LIMIT` is recorded
-//! and REFUSED (null). `Vec::with_capacity` with an absurd size panics with
+//! and REFUSED: on a supervised subject thread (child.rs) the requesting
+//! thread is suspended forever and abandoned; anywhere else null is returned.
+//! `Vec::with_capacity` with an absurd size panics with
 //! "capacity overflow" before reaching the allocator (catchable); a refused
 //! request makes `handle_alloc_error` abort the process, which is why the
 //! sweeps that can hit it run in child processes (see child.rs).
@@ -62,11 +64,33 @@ pub fn raw_log(prefix: &[u8], n: u64) {
     }
 }
 
+thread_local! {
+    /// set on threads that execute the subject under a supervisor (child.rs)
+    static SUBJECT: std::cell::Cell<bool> = const { std::cell::Cell::new(false) };
+}
+/// size of the request on which a subject thread was suspended (0 = none)
+pub static SUSPENDED: AtomicU64 = AtomicU64::new(0);
+
+pub fn mark_subject_thread() {
+    SUBJECT.with(|s| s.set(true));
+}
+
 #[inline]
 fn refuse(size: usize) -> bool {
     if size > LIMIT {
         REFUSED.fetch_add(1, Ordering::SeqCst);
         LAST_REFUSED_SIZE.store(size as u64, Ordering::SeqCst);
+        if SUBJECT.try_with(|s| s.get()).unwrap_or(false) {
+            // Supervised subject thread: never return from this request.
+            // The supervisor sees SUSPENDED, records the case as an enormous
+            // allocation, abandons this thread and continues on a new one.
+            // (Returning null would abort the whole process, and a process
+            // start costs ~100 ms here.)
+            SUSPENDED.store(size as u64, Ordering::SeqCst);
+            loop {
+                std::thread::sleep(std::time::Duration::from_secs(3600));
+            }
+        }
         raw_log(b"ENORMOUS ", size as u64);
         true
     } else {
